@@ -57,6 +57,7 @@ fn main() {
         ("record", "render") => render::record(rest),
         ("replay", "zerv") => zmodel::replay(rest),
         ("record", "zerv") => zmodel::record(rest),
+        ("record", "bigbump") => zmodel::record_big(rest),
         ("replay", "semver-order") => order::replay("semver", rest),
         ("replay", "pep440-order") => order::replay("pep440", rest),
         ("record", "semver-order") => order::record("semver", rest),
